@@ -144,8 +144,14 @@ func runC08(a args) error {
 		}
 	}
 	// generated histories x requested ids
-	alphabet := []string{"a", "b", "c", "earliest", "d"}
+	alphabetPlain := []string{"a", "b", "c", "earliest", "d"}
+	// ids that are suffixes, prefixes and repetitions of one another: an id is found by comparing whole ids
+	alphabetNested := []string{"a", "xa", "ax", "aa", "b", "earliest"}
 	for i := 0; i < a.n; i++ {
+		alphabet := alphabetPlain
+		if i%3 == 2 {
+			alphabet = alphabetNested
+		}
 		kind := []string{"bolt", "bolt", "bolt", "local"}[r.Intn(4)]
 		var ids []string
 		for k := r.Intn(8); k > 0; k-- {
